@@ -10,13 +10,16 @@
 (*  {"k":"page","ds":d,"n":len}   length of a feed read from the start     *)
 (*  {"k":"lock","g":goroutine,"ev":"op"|"got"|"rel","name":lock}  hooks    *)
 (*  {"k":"feed","ds":d,"items":[[e,tag],..]}   final change feed           *)
+(*  {"k":"look"|"list","ds":d,"items":[[e,tag],..]}  final lookups by id /  *)
+(*        final listing (follow the feed line of the same dataset)         *)
 (*  {"k":"count","ds":d,"items":n}            final items counter (C19)    *)
 (*  {"k":"reset"}                                                          *)
 (* Phase "load" consumes the lines (checking the pair / lock-order         *)
 (* events); phase "lin" must then find a total order of the acknowledged   *)
 (* writes that (1) extends every client's own order and (2) yields exactly *)
 (* the final feed of every dataset when each write is applied atomically   *)
-(* with the reference semantics of Datahub.tla's StoreBatch / ExecTxn.     *)
+(* with the reference semantics of Datahub.tla's StoreBatch / ExecTxn      *)
+(* (see Fits / ApplyOp for the search reduction that keeps this linear).   *)
 (* Acceptance: every line consumed and every acknowledged write applied.   *)
 (***************************************************************************)
 EXTENDS Integers, Sequences, FiniteSets, TLC, Json, SequencesExt
@@ -30,14 +33,12 @@ tvars == <<phase, l, ops, final, counts, pages, model, cnext, applied, edges, he
 
 Event == Trace[l]
 
-\* reference semantics of one batch on one feed (Datahub.tla: Apply): an element equal to the
-\* entity's current version is skipped
+\* Reference semantics of one batch on one feed (Datahub.tla: Apply): every element is appended, except
+\* one that equals the entity's current version.  The driver gives every write its own tag, so no
+\* element is ever equal to a current version (UniqueTags, required below): every acknowledged element is one
+\* feed entry, and the feed is a witness of the order in which the writes took effect.
 LatestTag(f, e) ==
   LET I == { i \in 1..Len(f) : f[i][1] = e } IN IF I = {} THEN "" ELSE f[CHOOSE i \in I : \A j \in I : j <= i][2]
-RECURSIVE ApplyB(_, _)
-ApplyB(f, b) ==
-  IF b = <<>> THEN f
-  ELSE IF LatestTag(f, b[1][1]) = b[1][2] THEN ApplyB(f, Tail(b)) ELSE ApplyB(Append(f, b[1]), Tail(b))
 
 Datasets == DOMAIN final
 
@@ -45,7 +46,8 @@ Load ==
   /\ phase = "load" /\ l <= Len(Trace)
   /\ l' = l + 1
   /\ CASE Event.k = "op" ->
-            /\ ops' = ops \cup {[c |-> Event.c, n |-> Event.n, parts |-> Event.parts]}
+            /\ ops' = [c \in DOMAIN ops \cup {Event.c} |->
+                         IF c = Event.c THEN Append(IF c \in DOMAIN ops THEN ops[c] ELSE <<>>, Event.parts) ELSE ops[c]]
             /\ UNCHANGED <<final, counts, pages, edges, held, bad>>
        [] Event.k = "pair" ->
             /\ bad' = (bad \/ Event.tags[1] # Event.tags[2])
@@ -68,6 +70,18 @@ Load ==
        [] Event.k = "feed" ->
             /\ final' = [d \in DOMAIN final \cup {Event.ds} |-> IF d = Event.ds THEN Event.items ELSE final[d]]
             /\ UNCHANGED <<ops, counts, pages, edges, held, bad>>
+       [] Event.k = "look" ->   \* final lookups by id (after the feed of the same dataset): the last written version
+            /\ bad' = (bad \/ \E i \in 1..Len(Event.items) :
+                                  Event.items[i][2] # LatestTag(final[Event.ds], Event.items[i][1]))
+            /\ UNCHANGED <<ops, final, counts, pages, edges, held>>
+       [] Event.k = "list" ->   \* final listing: every id of the feed exactly once, with its last written version
+            /\ bad' = (bad
+                       \/ Cardinality({ Event.items[i][1] : i \in 1..Len(Event.items) }) # Len(Event.items)
+                       \/ { Event.items[i][1] : i \in 1..Len(Event.items) }
+                            # { final[Event.ds][i][1] : i \in 1..Len(final[Event.ds]) }
+                       \/ \E i \in 1..Len(Event.items) :
+                             Event.items[i][2] # LatestTag(final[Event.ds], Event.items[i][1]))
+            /\ UNCHANGED <<ops, final, counts, pages, edges, held>>
        [] Event.k = "count" ->
             /\ counts' = [d \in DOMAIN counts \cup {Event.ds} |-> IF d = Event.ds THEN Event.items ELSE counts[d]]
             /\ UNCHANGED <<ops, final, pages, edges, held, bad>>
@@ -80,36 +94,61 @@ RECURSIVE Reach(_, _)
 Reach(S, k) == IF k = 0 THEN S ELSE Reach(S \cup { e[2] : e \in { x \in edges : x[1] \in S } }, k - 1)
 Acyclic == \A n \in Names : n \notin Reach({ e[2] : e \in { x \in edges : x[1] = n } }, Cardinality(Names))
 
+\* all (dataset, entity, tag) triples of the acknowledged writes, and how many elements were written
+Clients == DOMAIN ops
+RECURSIVE SumLen(_, _)
+SumLen(f, S) == IF S = {} THEN 0 ELSE LET x == CHOOSE x \in S : TRUE IN Len(f[x]) + SumLen(f, S \ {x})
+NOps == SumLen(ops, Clients)
+Triples == UNION { UNION { UNION { { <<ops[c][k][i][1], ops[c][k][i][2][j]>> : j \in 1..Len(ops[c][k][i][2]) }
+                                   : i \in 1..Len(ops[c][k]) } : k \in 1..Len(ops[c]) } : c \in Clients }
+RECURSIVE PartLen(_, _)
+PartLen(o, i) == IF i = 0 THEN 0 ELSE PartLen(o, i - 1) + Len(o[i][2])
+RECURSIVE OpsLen(_, _)
+OpsLen(sq, k) == IF k = 0 THEN 0 ELSE OpsLen(sq, k - 1) + PartLen(sq[k], Len(sq[k]))
+RECURSIVE CountElems(_)
+CountElems(S) == IF S = {} THEN 0 ELSE LET c == CHOOSE c \in S : TRUE IN OpsLen(ops[c], Len(ops[c])) + CountElems(S \ {c})
+UniqueTags == Cardinality(Triples) = CountElems(Clients)
+
 StartLin ==
   /\ phase = "load" /\ l > Len(Trace)
-  /\ ~bad /\ Acyclic
+  /\ ~bad /\ Acyclic /\ UniqueTags
   /\ phase' = "lin"
-  /\ model' = [d \in Datasets |-> <<>>]
-  /\ cnext' = [c \in { o.c : o \in ops } |-> 1]
+  /\ model' = [d \in Datasets |-> 0]          \* number of entries of the final feed explained so far
+  /\ cnext' = [c \in Clients |-> 1]
   /\ applied' = 0
   /\ TLCSet(2, 0)
   /\ bounds' = { <<d, 0>> : d \in Datasets }
   /\ UNCHANGED <<l, ops, final, counts, pages, edges, held, bad>>
 
-PartsOn(o, d) == LET I == { i \in 1..Len(o.parts) : o.parts[i][1] = d }
-                 IN IF I = {} THEN <<>> ELSE o.parts[CHOOSE i \in I : TRUE][2]
-
-\* apply the next write of some client: all its parts at once (atomic), result must stay a prefix
-\* of what the hub really ended up with
-ApplyOp(o) ==
-  /\ phase = "lin" /\ o \in ops /\ cnext[o.c] = o.n
-  /\ LET m2 == [d \in Datasets |-> ApplyB(model[d], PartsOn(o, d))]
-     IN /\ \A d \in Datasets : IsPrefix(m2[d], final[d])
-        /\ model' = m2
-        /\ bounds' = bounds \cup { <<d, Len(m2[d])>> : d \in Datasets }
-  /\ cnext' = [cnext EXCEPT ![o.c] = @ + 1]
+\* the next write of client c takes effect now: all its parts at once (atomic), each part being exactly the next
+\* entries of that dataset's final feed
+NextOf(c) == ops[c][cnext[c]]
+Fits(o) == \A i \in 1..Len(o) :
+             LET d == o[i][1]  part == o[i][2]
+             IN /\ d \in Datasets
+                /\ model[d] + Len(part) <= Len(final[d])
+                /\ \A j \in 1..Len(part) : final[d][model[d] + j] = part[j]
+Cand == { c \in Clients : cnext[c] <= Len(ops[c]) /\ Fits(NextOf(c)) }
+\* Search reduction.  If the next write o of some client fits now, then in EVERY total order that explains the
+\* feeds o precedes all other outstanding writes that touch one of its datasets (tags are unique: nothing else
+\* can produce the entries at these positions), it commutes with the writes that do not, and no earlier write of
+\* its own client is outstanding; so if any explaining order exists, one exists that applies o first.  It is
+\* therefore enough to always apply the candidate of the smallest client: the search is linear and complete.
+ApplyOp(c) ==
+  /\ phase = "lin" /\ c \in Cand /\ \A c2 \in Cand : c <= c2
+  /\ LET o == NextOf(c)
+         m2 == [d \in Datasets |-> LET I == { i \in 1..Len(o) : o[i][1] = d }
+                                    IN IF I = {} THEN model[d] ELSE model[d] + Len(o[CHOOSE i \in I : TRUE][2])]
+     IN /\ model' = m2
+        /\ bounds' = bounds \cup { <<d, m2[d]>> : d \in Datasets }
+  /\ cnext' = [cnext EXCEPT ![c] = @ + 1]
   /\ applied' = applied + 1
   /\ TLCSet(2, IF TLCGet(2) > applied + 1 THEN TLCGet(2) ELSE applied + 1)
   /\ UNCHANGED <<phase, l, ops, final, counts, pages, edges, held, bad>>
 
 Finish ==
-  /\ phase = "lin" /\ applied = Cardinality(ops)
-  /\ \A d \in Datasets : model[d] = final[d]
+  /\ phase = "lin" /\ applied = NOps
+  /\ \A d \in Datasets : model[d] = Len(final[d])
   \* a feed read from the start never ends inside a batch or transaction: its length is a batch boundary
   /\ \A pg \in pages : pg[1] \in Datasets => pg \in bounds
   /\ phase' = "done"
@@ -117,11 +156,11 @@ Finish ==
   /\ UNCHANGED <<l, ops, final, counts, pages, model, cnext, applied, edges, held, bad, bounds>>
 
 Init ==
-  /\ phase = "load" /\ l = 1 /\ ops = {} /\ final = <<>> /\ counts = <<>> /\ pages = {}
+  /\ phase = "load" /\ l = 1 /\ ops = <<>> /\ final = <<>> /\ counts = <<>> /\ pages = {}
   /\ model = <<>> /\ cnext = <<>> /\ applied = 0 /\ edges = {} /\ held = <<>> /\ bad = FALSE /\ bounds = {}
   /\ TLCSet(1, 0) /\ TLCSet(2, 0) /\ TLCSet(3, 0)
 
-Next == Load \/ StartLin \/ (\E o \in ops : ApplyOp(o)) \/ Finish
+Next == Load \/ StartLin \/ (\E c \in Clients : ApplyOp(c)) \/ Finish
 Spec == Init /\ [][Next]_tvars
 
 \* C19 (concurrent counters): the items counter equals the number of distinct ids in the final feed
